@@ -26,8 +26,15 @@ def make_inst(gen, assign, n_ac, fmt="new", names=None, nonsense=False):
         zs = a["zones"]
         a["start"] = zs[0] if zs else 0
         a["count"] = len(zs)
-    if nonsense:
+    if nonsense == "single":
         inst["acs"][0]["start"], inst["acs"][0]["count"] = 7, 0
+    elif nonsense == "all":
+        # new-format consoles have been observed with meaningless start/count bytes: every AC claims all groups
+        for a in inst["acs"]:
+            a["start"], a["count"] = 0, len(assign)
+    elif nonsense == "range":
+        for a in inst["acs"]:
+            a["start"], a["count"] = 13, 5          # points at groups that do not exist
     return inst
 
 
@@ -43,13 +50,18 @@ def installations(gen, tier):
             for assign in itertools.product(range(n), repeat=z):
                 if gen == 4:
                     out.append(("new", make_inst(4, assign, n, "new")))
+                    if n > 1:
+                        # the bitmap must win over stale start/count bytes
+                        out.append(("new-stale-all", make_inst(4, assign, n, "new", nonsense="all")))
+                        if z <= 3:
+                            out.append(("new-stale-range", make_inst(4, assign, n, "new", nonsense="range")))
                     if contiguous(assign) and (n == 1 or all(k in assign for k in range(n)) or True):
                         out.append(("old", make_inst(4, assign, n, "old")))
                 elif contiguous(assign):
                     out.append(("at5", make_inst(5, assign, n)))
     if gen == 4:
-        out.append(("old-single-nonsense", make_inst(4, (0, 0, 0), 1, "old", nonsense=True)))
-        out.append(("new-single-nonsense", make_inst(4, (0, 0, 0), 1, "new", nonsense=True)))
+        out.append(("old-single-nonsense", make_inst(4, (0, 0, 0), 1, "old", nonsense="single")))
+        out.append(("new-single-nonsense", make_inst(4, (0, 0, 0), 1, "new", nonsense="single")))
     # structured families up to 16 zones
     for z in (8, 12, 16):
         for n in (1, 2, 4):
